@@ -29,3 +29,15 @@ func VerifShutdownPending(d *DirectTransmission) int {
 	}
 	return n
 }
+
+// VerifShutdownStopped: has Stop run (it sets eventBatches to nil); -1: batchMutex is held.
+func VerifShutdownStopped(d *DirectTransmission) int {
+	if !d.batchMutex.TryRLock() {
+		return -1
+	}
+	defer d.batchMutex.RUnlock()
+	if d.eventBatches == nil {
+		return 1
+	}
+	return 0
+}
